@@ -11,7 +11,7 @@ from ..roles import RoleLost
 from .. import pat
 from ..kern.expr import Expr, fresh, equal_modulo_order, sym
 from ..kern import expr as X
-from ..kern.interp import Interp, Undecided, Num, Arr, Struct, Tup, Opt, Cond, Opaque, num_const, num_size
+from ..kern.interp import Interp, Undecided, Num, Arr, Struct, Tup, Opt, Cond, Opaque, num_const, num_size, opaque_by_type
 from ..kern import world, models
 from .. import idroles
 
@@ -1446,6 +1446,30 @@ def run_c14g(ctx):
 # ---------------------------------------------------------------------------------------------------
 # C07 / C11 (rescaling): the sector routine
 
+def reader_constant(ctx, rd, body):
+    """0 / 1 when the reader method `body` returns that constant of the scalar type for every reader; None otherwise."""
+    f = ctx.facts
+    adt = f.adts.get(rd["adt"]) or {}
+    flds = {}
+    try:
+        for fl in adt["variants"][0]["fields"]:
+            flds[fl["name"]] = opaque_by_type(fl["ty"], fl["name"], f.types)
+    except (KeyError, IndexError):
+        return None
+    I = Interp(f)
+    try:
+        res = I.run_fn(body.path, [Struct(rd["adt"].split("::")[-1], flds)] + [Opaque("arg")] * (body.arg_count - 1))
+    except Undecided:
+        return None
+    if isinstance(res, Num):
+        e = res.expr.simplified()
+        if e == Expr.zero():
+            return 0
+        if e == Expr.const(1):
+            return 1
+    return None
+
+
 class SectorWorld:
     """Per-iteration transfer function of the sector loop (case split on the single-edge condition only) and the
     straight-line tail (rescaling), with the loop state as named unknowns."""
@@ -1530,7 +1554,12 @@ class SectorWorld:
         for key, b in f.mir.items():
             fi = f.fns.get(b.path) or {}
             if (f.ty(fi.get("impl_self") or "") or {}).get("path") == rd["adt"] and b is not read and b is not rd["ctor"]:
-                hooks[b.path] = (lambda nm: (lambda I_, c, a: num_const(0) if nm.endswith("zero") else num_const(1)))(b.path)
+                # the reader's constant builders (`rng.zero()`, `rng.one()`): what they return is decided from their bodies on a reader
+                # whose slice holds abstract scalars — a builder that hands back anything but the constant 0 / 1 makes the routine undecided
+                val = reader_constant(ctx, rd, b)
+                if val is None:
+                    continue
+                hooks[b.path] = (lambda v_: (lambda I_, c, a: num_const(v_)))(val)
         I = Interp(f, models=hooks)
         I.on_while = on_while
         I.probe = lambda: sites[0]
@@ -1664,6 +1693,16 @@ def iteration_clauses(ctx, RA, RB, emit_a):
                            "(state at the exit == state at the end of the iteration for x, U_tr, V_tr)" % label, not stale, fn, "state-at-exit:" + label,
                        detail="at the exit under %s these differ from the end-of-iteration state: %s" % (tr["breaks"][k_], stale))
             w.names = {"x": xname, "kappa": kname, "u": found_u, "v": found_v, "graph": gname}
+            # the recurrences start from κ = 1, U_tr = 1, V_tr = 1 (the empty products): what the constant builders hand back is decided
+            # from their bodies, not from their names
+            pre = getattr(w, "pre_loop", None) or {}
+            if case:
+                init_bad = []
+                for nm_ in (kname, found_u, found_v):
+                    v0 = pre.get(nm_)
+                    if nm_ is None or not isinstance(v0, Num) or v0.expr.simplified() != Expr.const(1):
+                        init_bad.append("%s = %s" % (nm_, v0.expr.key() if isinstance(v0, Num) else v0))
+                ctx.ob(RB, "before the first iteration κ = U_tr = V_tr = 1", not init_bad, fn, "initial-state", detail="; ".join(init_bad))
         guarded_clause(ctx, RA if emit_a else RB, fn, "iteration:" + label, body)
 
 
